@@ -32,7 +32,7 @@ import (
 // ---------------------------------------------------------------- events
 
 type Event struct {
-	Kind string `json:"kind"` // propose | deliver | restart | crashBefore | snapshot | install | join | transfer
+	Kind string `json:"kind"` // propose | deliver | restart | crashBefore | storeError | snapshot | install | join | transfer
 	R    int    `json:"replica,omitempty"`
 	K    int    `json:"bulk,omitempty"`
 }
@@ -84,6 +84,7 @@ type Entry struct {
 type crashStore struct {
 	storage.ManagedStore
 	failNext int32
+	errNext  int32 // the next Mutate is refused with an error (disk full, I/O error): nothing is written
 }
 
 type crashPanic struct{}
@@ -91,6 +92,9 @@ type crashPanic struct{}
 func (c *crashStore) Mutate(m []*storage.Mutation, meta []byte) error {
 	if atomic.CompareAndSwapInt32(&c.failNext, 1, 0) {
 		panic(crashPanic{}) // the process "dies" immediately before the store write of this apply
+	}
+	if atomic.CompareAndSwapInt32(&c.errNext, 1, 0) {
+		return fmt.Errorf("verif: the store refuses this write batch")
 	}
 	return c.ManagedStore.Mutate(m, meta)
 }
@@ -340,8 +344,11 @@ func (c *Cluster) Enabled(b Bounds) []Event {
 			if b.Crashes && c.count("crashBefore") < 1 {
 				out = append(out, Event{Kind: "crashBefore", R: r.ID})
 			}
+			if b.Crashes && c.count("storeError") < 1 {
+				out = append(out, Event{Kind: "storeError", R: r.ID})
+			}
 		}
-		if b.Restarts && c.count("restart")+c.count("crashBefore") < b.MaxRestarts {
+		if b.Restarts && c.count("restart")+c.count("crashBefore")+c.count("storeError") < b.MaxRestarts {
 			out = append(out, Event{Kind: "restart", R: r.ID})
 		}
 		if b.Snapshots && r.Applied > r.SnapIdx && c.count("snapshot") < b.MaxSnapshots {
@@ -447,6 +454,36 @@ func (c *Cluster) Step(e Event) (ok bool) {
 				}
 			}
 		}
+	case "storeError":
+		// the store refuses the write batch of the next entry delivered to r. The node must not go on
+		// as if nothing had happened: either the process dies (then it is restarted and the entry is
+		// delivered again, like after a crash) or it must be exactly where it was before the entry.
+		r := c.R[e.R]
+		c.dirty[r.ID] = true
+		ent := c.Log[r.Applied]
+		atomic.StoreInt32(&r.cs.errNext, 1)
+		died := false
+		func() {
+			defer func() {
+				if x := recover(); x != nil {
+					died = true
+				}
+			}()
+			r.Node.Apply(&raft.Log{Index: ent.Index, Term: 1, Type: raft.LogCommand, Data: ent.Data})
+		}()
+		atomic.StoreInt32(&r.cs.errNext, 0)
+		r.ops = append(r.ops, rop{kind: "storeError", idx: ent.Index})
+		if died {
+			c.reboot(r, false)
+			return !c.broken
+		}
+		// the node lives on: raft considers the entry applied and will never deliver it again
+		for _, d := range ent.Digests {
+			r.keys = append(r.keys, d)
+		}
+		r.Applied++
+		c.viol("[C05] a replica whose store refused the write batch of an entry keeps running without the entry (raft will not deliver it again): its versions no longer match the log", map[string]interface{}{"replica": r.ID, "index": ent.Index})
+		return false
 	case "restart":
 		r := c.R[e.R]
 		c.dirty[r.ID] = true
@@ -803,6 +840,14 @@ func (c *Cluster) rebuild(r *Replica, ops []rop) {
 			r.Applied = o.idx
 		case "crashBefore":
 			c.apply(r, c.Log[o.idx-1], true)
+			c.reboot(r, false)
+		case "storeError":
+			atomic.StoreInt32(&r.cs.errNext, 1)
+			func() {
+				defer func() { recover() }()
+				r.Node.Apply(&raft.Log{Index: c.Log[o.idx-1].Index, Term: 1, Type: raft.LogCommand, Data: c.Log[o.idx-1].Data})
+			}()
+			atomic.StoreInt32(&r.cs.errNext, 0)
 			c.reboot(r, false)
 		case "restart":
 			c.reboot(r, true)
